@@ -1183,3 +1183,61 @@ def r_rounding(A, ctx, scope, rule="R-ROUNDING"):
         except (Unsupported, ZeroDivisionError) as e:
             ctx.ob(rule, key, None, detail=f"not lifted: {e}")
     ctx.floor(rule, n, scope.get("floor", 4))
+
+
+# ------------------------------------------------------------------- fallback step on zero curvature
+def _fallback_literal(A):
+    """the step the epoch kernels use when the curvature of a coordinate is zero"""
+    import ast as _ast
+    vals = set()
+    for m in A.prog.modules.values():
+        if not m.name.startswith("skglm.solvers"):
+            continue
+        for n in _ast.walk(m.tree):
+            if isinstance(n, _ast.IfExp) and isinstance(n.orelse, _ast.Constant) and isinstance(n.orelse.value, (int, float)) \
+                    and isinstance(n.body, _ast.BinOp) and isinstance(n.body.op, _ast.Div) \
+                    and isinstance(n.test, _ast.Compare):
+                vals.add(float(n.orelse.value))
+    return vals
+
+
+def r_fallback_step(A, ctx, scope, rule="R-FALLBACK"):
+    ctx.rule(rule, "zero-curvature coordinates: with the fallback step the epoch kernels use when a Lipschitz "
+             "constant is 0 (far outside the usual step range, where a prox helper may take another "
+             "branch), the prox of every penalty with positive=True still returns a non-negative value "
+             "for negative inputs of any size")
+    steps = _fallback_literal(A)
+    if len(steps) != 1:
+        ctx.ob(rule, "fallback-literal", None, detail=f"fallback steps found in the kernels: {sorted(steps)}")
+        return
+    S = steps.pop()
+    n = 0
+    for cls in A.prog.penalties:
+        px = cls.find_method("prox_1d")
+        if px is None or px.cls.name == "BasePenalty" or "positive" not in A.prog.init_params(cls):
+            continue
+        model = ScalarModel(A, cls, {"positive": True})
+        try:
+            obj = model.self_obj()
+        except Unsupported:
+            continue
+        for ratio in (-S / 10.0, -S / 500.0, -3 * S):
+            key = f"{cls.fq}::prox_1d::{model.tag}::x={ratio:g}*alpha,step={S:g}"
+            try:
+                L, rg = model.lifter({"x": ratio * HYP["alpha"], "s": S})
+                u = R(L.call_function(px, [sym("x"), sym("s"), 1], self_obj=obj))
+                un = rg.num(u)
+            except Raised as e:
+                n += 1
+                ctx.ob(rule, key, False, what=f"{model.tag}.prox_1d raises at the fallback step {S}: {e}",
+                       loc=loc(px, px.node))
+                continue
+            except (Unsupported, ZeroDivisionError) as e:
+                ctx.ob(rule, key, None, detail=f"not lifted: {e}")
+                continue
+            n += 1
+            ctx.ob(rule, key, un >= -1e-300,
+                   what=f"{model.tag}: prox_1d({ratio:g} * alpha, step={S:g}) = {un:.4g} is negative although "
+                        "positive=True: on a zero-curvature coordinate (fallback step) a negative warm-started "
+                        "coefficient is returned as is", loc=loc(px, px.node))
+    ctx.floor(rule, n, scope.get("floor", 9))
